@@ -1,22 +1,23 @@
 package main
 
 import (
-	"fmt"
 	"os"
 
 	"verifsim/detsim"
 	"verifsim/e1"
+	"verifsim/e2"
 )
 
 func lookupEngine(prop, shape string) detsim.Engine {
 	switch prop {
 	case "C09", "C10":
 		return e1.Engine{Shape: shape}
+	case "C08", "C11", "C12":
+		return e2.Engine{}
 	}
 	return nil
 }
 
 func oracleMain(args []string) {
-	fmt.Fprintln(os.Stderr, "simworker: oracle mode not built yet")
-	os.Exit(2)
+	e2.OracleServe(os.Stdin, os.Stdout)
 }
